@@ -45,6 +45,10 @@ def main():
                 meta["demo_exit_with_change"] = r1.returncode
                 t = sh(TEST_CMD, env=env, cwd=wt, timeout=1800)
                 tail = (t.stdout.strip().splitlines() or ["?"])[-1]
+                if t.returncode != 0 and " error" in tail and "failed" not in tail:
+                    # tests/test_save.py shares one file name between two tests and races under xdist (also on the unchanged tree): retry serially
+                    t = sh([a for a in TEST_CMD if a not in ("-n", "8")], env=env, cwd=wt, timeout=3600)
+                    tail = (t.stdout.strip().splitlines() or ["?"])[-1] + " (serial retry after an xdist race in tests/test_save.py)"
                 meta["tests_with_change"] = tail
                 meta["confirmed"] = bool(meta.get("demo_exit_without_change") == 0 and r1.returncode != 0 and t.returncode == 0)
                 meta["what_i_ran"] = ["demo.py on HEAD (exit %s) and with the change (exit %s)" % (meta.get("demo_exit_without_change"), r1.returncode), " ".join(TEST_CMD[:3]) + " ... : " + tail]
